@@ -11,7 +11,7 @@ b = src.index("Fixpoint run_script_from")
 block = src[a:b]
 parts = re.split(r"(?m)^(?:Fixpoint|with) ", block)[1:]
 names = [p.split(None, 1)[0] for p in parts]
-VDEP = names + ["unref", "close"]        # the functions of the section that depend on the variant
+VDEP = names + ["close", "purge", "root_cleanup"]        # the functions of the section that depend on the variant
 out = ["(* LifeUnfold.v -- the unfolding equations of the mutual recursion of the dispatch functions (repaired variant);",
        "   generated from the text of LifeDefs.v by tools/mk_life_unfold.py, each proved by reflexivity. *)",
        "From Coq Require Import ZArith List Bool PArith FMapPositive.",
